@@ -2241,6 +2241,8 @@ def cmd_hostile(args):
             pid = os.fork()
             if pid == 0:
                 code = 0
+                _signal.signal(_signal.SIGALRM, _signal.SIG_DFL)
+                _signal.alarm(20)  # wall-clock watchdog: the child is killed by SIGALRM (inconclusive, not a crash)
                 try:
                     try:
                         load_module(case_path)
@@ -2252,7 +2254,11 @@ def cmd_hostile(args):
                     os._exit(code)
             _, st = os.waitpid(pid, 0)
             acc.evaluations += 1
-            if os.WIFSIGNALED(st):
+            if os.WIFSIGNALED(st) and os.WTERMSIG(st) == _signal.SIGALRM:
+                acc.count("c11_case_watchdog_fired_inconclusive")
+                if acc.counters["c11_case_watchdog_fired_inconclusive"] >= 5:
+                    break
+            elif os.WIFSIGNALED(st):
                 sig = os.WTERMSIG(st)
                 native = len(data) >= 2 and _struct.unpack("<H", data[:2])[0] == PYTHON_MAGIC_INT
                 cls = label.split(":v")[0] if label.startswith("adversarial") else label
@@ -2278,7 +2284,7 @@ def cmd_hostile(args):
             outcome = None
             err = None
             obs.active = True
-            _signal.setitimer(_signal.ITIMER_REAL, args.get("case_watchdog_s", 30))
+            _signal.setitimer(_signal.ITIMER_REAL, args.get("case_watchdog_s", 20))
             try:
                 try:
                     r = load_module(case_path)
@@ -2336,6 +2342,11 @@ def cmd_hostile(args):
             acc.mismatch("C11|step-budget-exceeded|%s" % cls, budget=a_steps * len(data) + b_steps, **wit)
         elif outcome == "watchdog":
             acc.count("c11_case_watchdog_fired_inconclusive")
+            if acc.counters["c11_case_watchdog_fired_inconclusive"] >= 5:
+                # this host has no step counter and keeps hitting the wall-clock watchdog: stop here (inconclusive for
+                # this worker; the workers on the 3.12 host judge the same mechanisms by logical steps)
+                acc.count("c11_worker_stopped_after_repeated_watchdog")
+                break
         if len(data):
             maxratio = max(maxratio, steps / float(len(data) + 1000))
         if peak is not None:
